@@ -159,9 +159,10 @@ class Run:
         ev = {"property_id": self.prop, "tier": self.tier, "seed": self.seed, "level": level,
               "coverage": cov, "assumptions": self.assumptions, "wall_s": round(wall, 1),
               "violations": len(self.violations)}
-        os.makedirs(os.path.join(VERIF, "evidence"), exist_ok=True)
-        with open(os.path.join(VERIF, "evidence", self.prop + ".json"), "w") as f:
-            json.dump(ev, f, indent=1, sort_keys=True)
+        if not os.environ.get("VERIF_NOEVIDENCE"):
+            os.makedirs(os.path.join(VERIF, "evidence"), exist_ok=True)
+            with open(os.path.join(VERIF, "evidence", self.prop + ".json"), "w") as f:
+                json.dump(ev, f, indent=1, sort_keys=True)
         seen = set()
         for k, what in self.known:
             if k not in seen:
@@ -272,8 +273,9 @@ def run_driver(run, binary, sessions_path, traces_path, nshards=None, quiet="2ms
                     s.start(idx + 1)
                     continue
                 raise Infra("driver shard %d exited with %d after finishing session %d:\n%s" % (s.i, rc, idx, s.stderr()[-3000:]))
-            if rc == 2 and "driver:" in s.stderr()[-3000:]:
-                raise Infra("driver shard %d: %s" % (s.i, s.stderr()[-3000:]))
+            if rc == 2 and "driver:" in s.stderr():
+                msg = [l for l in s.stderr().split("\n") if l.startswith("driver:")]
+                raise Infra("driver shard %d: %s" % (s.i, "\n".join(msg)[-2000:]))
             faults[sid] = "crash"
             with open(s.traces, "a") as f:
                 f.write(json.dumps({"ev": "session", "id": sid}) + "\n")
